@@ -1,6 +1,6 @@
 /-
   Csvq.Model.SortGen — the flat record that lib/query/sort_value.go's `SortValue` is (Type, Integer,
-  Float, Datetime, String; the --strict-equal key aside), the target type of the translator
+  Float, Datetime, String; with the --strict-equal key: `SVK`), the target type of the translator
   extract/sortfacts, and the embedding of the model's `SortVal` into it.  Core Lean only.
 -/
 import Csvq.Model.Sort
@@ -15,6 +15,12 @@ structure SV where
   float    : FVal := .fin 0
   datetime : Int := 0
   string   : Bytes := []
+  deriving Repr
+
+/-- a SortValue with its `SerializedKey` (`none` = nil: the session runs without --strict-equal) -/
+structure SVK where
+  sv  : SV
+  key : Option Bytes
   deriving Repr
 
 /-- Go's `<` on int64 fields -/
